@@ -249,11 +249,9 @@ Section RcP.
   Lemma last_app_ne (l1 l2 : list St) : l2 <> [] -> last (l1 ++ l2) dflt = last l2 dflt.
   Proof. intros H. induction l1 as [|a t IH]; [reflexivity|]. cbn [app]. destruct (t ++ l2) as [|x l] eqn:E; [destruct t; [cbn in E; congruence|discriminate]|]. change (last (a :: x :: l) dflt) with (last (x :: l) dflt). exact IH. Qed.
 
-  (* what solve() reports *)
-  Theorem rc_solve_spec fuel samples : starts <> [] ->
-    let s := fst (rc_solve St D dist dlt steer mvS mvG gdist goals dflt fuel starts samples) in
-    TInv true starts (c_ts s) /\ TInv false goals (c_tg s) /\
-    match snd (rc_solve St D dist dlt steer mvS mvG gdist goals dflt fuel starts samples) with
+  (* what a call of solve() reports *)
+  Definition ReportOk (rep : option (list St * bool * option D)) : Prop :=
+    match rep with
     | Some (path, false, _) =>
         path <> [] /\ In (hd dflt path) starts /\ In (last path dflt) goals /\ consecutive (fun a b => mvS a b = true \/ mvG a b = true) path
     | Some (path, true, Some dd) =>
@@ -261,22 +259,13 @@ Section RcP.
     | Some (_, true, None) => False
     | None => True
     end.
+  Lemma report_spec s : CInv s -> ReportOk (rc_report St D s).
   Proof.
-    intros Hs. unfold rc_solve. cbn [fst snd].
-    set (init := mkC St D (map (fun x => (x, None)) starts) [] true 0 None None).
-    assert (I0 : CInv init).
-    { split; [|split; [|split; [|split]]]; cbn [RrtConnectModel.c_ts RrtConnectModel.c_tg RrtConnectModel.c_approx RrtConnectModel.c_sol init].
-      - split; [intros i s Hi|intros i s p Hi]; rewrite nth_error_map in Hi; destruct (nth_error starts i) eqn:E0; try discriminate. cbn in Hi. injection Hi as <-. eapply nth_error_In; exact E0.
-      - split; [intros i s Hi|intros i s p Hi]; destruct i; discriminate.
-      - destruct starts; [congruence|discriminate].
-      - intros i dd H. discriminate.
-      - intros sm gm H. discriminate. }
-    pose proof (loop_inv fuel samples init I0) as (I1 & I2 & I3 & I4 & I5). set (s := rc_loop St D dist dlt steer mvS mvG gdist goals dflt fuel init samples) in *.
-    split; [exact I1|]. split; [exact I2|]. unfold rc_report. destruct (c_sol s) as [[sm gm]|] eqn:Esol.
+    intros (I1 & I2 & I3 & I4 & I5). unfold rc_report, ReportOk. destruct (c_sol s) as [[sm gm]|] eqn:Esol.
     - destruct (I5 sm gm eq_refl) as (S1 & S2 & S3 & (p & S4)). rewrite S4.
       unfold parent_of in S4. destruct (nth_error (c_ts s) sm) as [[ssm psm]|] eqn:Esm; [|discriminate]. subst psm.
-      destruct I1 as (_ & T2). destruct (T2 sm ssm p Esm) as (Hp & ps & pp & Ep & Em). 
-      destruct (chain_spec true starts (c_ts s) (conj (proj1 (proj1 (conj (proj1 (loop_inv fuel samples init I0)) I))) T2) (S (length (c_ts s))) p ps pp ltac:(lia) Ep) as (A1 & A2 & A3 & A4).
+      pose proof I1 as (_ & T2). destruct (T2 sm ssm p Esm) as (Hp & ps & pp & Ep & Em).
+      destruct (chain_spec true starts (c_ts s) I1 (S (length (c_ts s))) p ps pp ltac:(lia) Ep) as (A1 & A2 & A3 & A4).
       destruct (nth_error (c_tg s) gm) as [[sg pg]|] eqn:Egm; [|apply nth_error_None in Egm; lia].
       destruct (chain_spec false goals (c_tg s) I2 (S (length (c_tg s))) gm sg pg ltac:(lia) Egm) as (B1 & B2 & B3 & B4).
       set (A := chain St (S (length (c_ts s))) (c_ts s) p) in *. set (B := chain St (S (length (c_tg s))) (c_tg s) gm) in *.
@@ -291,4 +280,46 @@ Section RcP.
       destruct (chain_spec true starts (c_ts s) I1 (S (length (c_ts s))) i si pi ltac:(lia) Ei) as (C1 & C2 & C3 & C4).
       split; [exact C1|]. split; [exact C3|]. split; [exact C4|]. rewrite C2, A2, (st_at_nth _ _ _ _ Ei). reflexivity.
   Qed.
+  Lemma init_inv : starts <> [] -> CInv (mkC St D (map (fun x => (x, None)) starts) [] true 0 None None).
+  Proof.
+    intros Hs. split; [|split; [|split; [|split]]]; cbn [RrtConnectModel.c_ts RrtConnectModel.c_tg RrtConnectModel.c_approx RrtConnectModel.c_sol].
+    - split; [intros i s Hi|intros i s p Hi]; rewrite nth_error_map in Hi; destruct (nth_error starts i) eqn:E0; try discriminate. cbn in Hi. injection Hi as <-. eapply nth_error_In; exact E0.
+    - split; [intros i s Hi|intros i s p Hi]; destruct i; discriminate.
+    - destruct starts; [congruence|discriminate].
+    - intros i dd H. discriminate.
+    - intros sm gm H. discriminate.
+  Qed.
+  Theorem rc_solve_spec fuel samples : starts <> [] ->
+    let s := fst (rc_solve St D dist dlt steer mvS mvG gdist goals dflt fuel starts samples) in
+    TInv true starts (c_ts s) /\ TInv false goals (c_tg s) /\
+    match snd (rc_solve St D dist dlt steer mvS mvG gdist goals dflt fuel starts samples) with
+    | Some (path, false, _) =>
+        path <> [] /\ In (hd dflt path) starts /\ In (last path dflt) goals /\ consecutive (fun a b => mvS a b = true \/ mvG a b = true) path
+    | Some (path, true, Some dd) =>
+        path <> [] /\ In (hd dflt path) starts /\ consecutive (fun a b => mvS a b = true) path /\ dd = gdist (last path dflt)
+    | Some (_, true, None) => False
+    | None => True
+    end.
+  Proof.
+    intros Hs. unfold rc_solve. cbn [fst snd]. pose proof (loop_inv fuel samples _ (init_inv Hs)) as I.
+    split; [apply I|]. split; [apply I|]. apply (report_spec _ I).
+  Qed.
+  (* any number of solve() calls without clear(): both trees keep their invariants and every call's report is real *)
+  Lemma resume_inv fuel s samples : CInv s -> CInv (rc_resume St D dist dlt steer mvS mvG gdist goals dflt fuel s samples).
+  Proof.
+    intros (I1 & I2 & I3 & _ & _). unfold rc_resume. apply loop_inv. split; [exact I1|]. split; [exact I2|]. split; [exact I3|]. split; [intros i dd H; discriminate|intros sm gm H; discriminate].
+  Qed.
+  Theorem rc_calls_spec fuel : forall calls s, CInv s ->
+    CInv (fst (rc_calls St D dist dlt steer mvS mvG gdist goals dflt fuel s calls)) /\ Forall ReportOk (snd (rc_calls St D dist dlt steer mvS mvG gdist goals dflt fuel s calls)).
+  Proof.
+    induction calls as [|smp rest IH]; intros s I; cbn [rc_calls]; [cbn; split; [exact I|constructor]|].
+    pose proof (resume_inv fuel s smp I) as I1. destruct (IH _ I1) as (A & B).
+    destruct (rc_calls St D dist dlt steer mvS mvG gdist goals dflt fuel (rc_resume St D dist dlt steer mvS mvG gdist goals dflt fuel s smp) rest) as [s2 reps]. cbn [fst snd] in *.
+    split; [exact A|]. constructor; [apply report_spec; exact I1|exact B].
+  Qed.
+  Theorem rc_solves_spec fuel calls : starts <> [] ->
+    Forall ReportOk (snd (rc_solves St D dist dlt steer mvS mvG gdist goals dflt fuel starts calls)) /\
+    TInv true starts (c_ts (fst (rc_solves St D dist dlt steer mvS mvG gdist goals dflt fuel starts calls))) /\
+    TInv false goals (c_tg (fst (rc_solves St D dist dlt steer mvS mvG gdist goals dflt fuel starts calls))).
+  Proof. intros Hs. unfold rc_solves. destruct (rc_calls_spec fuel calls _ (init_inv Hs)) as (A & B). split; [exact B|]. split; apply A. Qed.
 End RcP.
